@@ -49,8 +49,10 @@ def execInner (cfg : Cfg) (l : L) (n : Nat) : List Inner → M → Bool → Opti
 def exec (cfg : Cfg) (l : L) (n : Nat) : List Stmt → M → Bool → Option (Except String (Bool × M))
   | [], _, _ => none
   | .declineUnless t :: rest, m, h =>
-    if t = testName ∧ testIsCommitRegex = true then
-      if !l.commitRe then some (.ok (false, m)) else exec cfg l n rest m h
+    if t = testName then
+      if testIsCommitRegex then
+        if !l.commitRe then some (.ok (false, m)) else exec cfg l n rest m h
+      else none
     else none
   | .letHandled b :: rest, m, _ => exec cfg l n rest m b
   | .paintBuffered :: rest, m, h => exec cfg l n rest (flushMP m) h
@@ -66,8 +68,7 @@ def exec (cfg : Cfg) (l : L) (n : Nat) : List Stmt → M → Bool → Option (Ex
       | some (m', h') => exec cfg l n rest m' h'
       | none => none
     else exec cfg l n rest m h
-  | [.returnHandled], m, h => some (.ok (h, m))
-  | .returnHandled :: _ :: _, _, _ => none
+  | .returnHandled :: rest, m, h => if rest.isEmpty then some (.ok (h, m)) else none
   | .unknown _ :: _, _, _ => none
 
 /-- `handle_commit_meta_header_line` as the source has it (`handled_line` starts undefined: `false`) -/
